@@ -651,20 +651,22 @@ example :
 
 open Tickit.RBFlushX in
 /-- **request_on_vt_is_grid_step**: one request of the flush that the simulation covers (`ReqOK`: a goto, a setpen
-    with a pen the driver can say, an erase outside reverse video, the print of a CHAR cell), read by the VT screen as
+    with a pen the driver can say, an erase outside reverse video, a print of well-formed UTF-8 of printable characters
+    of two, one or no columns that fit on the line - CHAR cells, TEXT runs, LINE batches), read by the VT screen as
     the bytes the xterm driver writes for it, does what the request does on the grid terminal of `flush_spec_screen`:
     the two terminals stay in step (`Sim`: same glyphs, same write counts, each written VT cell in the rendition its
     grid cell's pen asks for, VT rendition = `tt->pen`), the cursors agree once a goto has been seen (`Cur`). -/
 theorem request_on_vt_is_grid_step {caps : TermPen.Caps} {t0 t : GridTerm} {s0 s : XScreen} (h : Sim caps t0 s0 t s)
-    (moved : Bool) (hcur : moved = true → Cur t s) (r : Req) (hr : ReqOK caps moved t r) :
+    (moved : Bool) (hcur : moved = true → Cur t0 t s) (r : Req) (hr : ReqOK caps moved t r) :
     Sim caps t0 s0 (t.stepL s.lines r) (s.interp (reqCalls caps t.pen r).flatten) ∧
-    (movedAfter moved r = true → Cur (t.stepL s.lines r) (s.interp (reqCalls caps t.pen r).flatten)) :=
+    (movedAfter moved r = true → Cur t0 (t.stepL s.lines r) (s.interp (reqCalls caps t.pen r).flatten)) :=
   ⟨(req_sim h moved hcur r hr).1, (req_sim h moved hcur r hr).2.1⟩
 
 open Tickit.RBFlushX in
 /-- **C04_xterm_screen_partial**: `C04_xterm_screen` under two extra hypotheses - the requests of the flush are ones
     the simulation covers (`RunOK`, evaluated along the grid terminal's run: gotos at non-negative positions, pens the
-    driver can say, erases outside reverse video, print requests of CHAR cells; TEXT and LINE runs are not covered yet)
+    driver can say, erases outside reverse video, print requests whose bytes are well-formed UTF-8 of printable
+    characters that fit on the line)
     and no erase cell asks for reverse video.  Then, through an output buffer of any size, every cell of the VT screen
     (inside and outside the buffer's area) meets the obligation of the buffer's content: glyph, the rendition its own
     pen asks for, written exactly once; untouched where the buffer skips.  The composition: `flush_stream_any_buffer`
@@ -701,7 +703,11 @@ open Tickit.RBFlushX in
 example : RunOK ⟨false, false⟩ (XScreen.fresh 2 4).lines false (gridOf (XScreen.fresh 2 4) {}) (flushToTerm simXRB).reqs := by
   rw [simXRB_requests]
   refine ⟨⟨by decide, by decide⟩, by unfold ReqOK PenEncodable; decide,
-    ⟨rfl, by decide +kernel, 0xe9, by decide, by decide +kernel, by decide, rfl, by decide⟩,
+    ⟨rfl, by decide, [0xe9], by
+      intro cp hcp
+      simp only [List.mem_singleton] at hcp
+      subst hcp
+      exact ⟨by decide, by decide +kernel⟩, by decide, by simp only [Fits]; decide +kernel⟩,
     ⟨by decide, by decide⟩, by unfold ReqOK PenEncodable; decide,
     ⟨rfl, by decide, by decide, by decide +kernel⟩, trivial⟩
 
